@@ -36,18 +36,21 @@ VARIABLES phase,  \* "init" | "built" | "cond" | "done"
           k,      \* number of key columns
           rows,   \* the sorted key record: sequence of rows, a row = sequence of k cells
           g,      \* rows per fragment
+          ct,     \* per key column "ia" (integer column whose values 0,1,2 are consecutive integers) or "o" (any other)
           cond,   \* the condition tree of the query
           tb,     \* time bounds [c |-> time key column or 0, lo, hi]
           out,    \* result of Scan: [match, sel, impl, implerr]
           hist
 
-vars == <<phase, k, rows, g, cond, tb, out, hist>>
-view == <<phase, k, rows, g, cond, tb, out>>
+vars == <<phase, k, rows, g, ct, cond, tb, out, hist>>
+view == <<phase, k, rows, g, ct, cond, tb, out>>
 
 \* a null key cell sorts after every value and is +infinity in the index (createFieldRefFunc)
-Null   == 3
-PosInf == 3
-NegInf == -1
+\* the value scale: -2 = -infinity, -1 = below every value, 0..2 = the values, 3 = above every value,
+\* 4 = +infinity = null.  (-1 and 3 only arise as the closed form of an open integer bound, see AtomElem)
+Null   == 4
+PosInf == 4
+NegInf == -2
 KV == Vals \cup (IF WithNull THEN {Null} ELSE {})
 
 Tup(kk) == [1..kk -> KV]
@@ -97,13 +100,21 @@ NonKey == [t |-> "nonkey"]
 \* the atoms of the exhaustive configurations (IN, string operators in the larger ones)
 ExhAtoms(kk) == CmpAtoms(kk) \cup {NonKey}
 
+\* condition trees to depth d; AND / OR of the same two sub-trees in either order are semantically equal
+\* (the mask algebra is commutative), so the exhaustive enumeration takes each unordered pair once
 RECURSIVE Trees(_, _)
 Trees(atoms, d) ==
   IF d = 0 THEN atoms
-  ELSE LET sub == Trees(atoms, d - 1)
-       IN atoms \cup {[t |-> o, l |-> a, r |-> b] : o \in {"and", "or"}, a \in sub, b \in sub}
+  ELSE LET sq == SetToSeq(Trees(atoms, d - 1))
+           n  == Len(sq)
+       IN atoms \cup UNION {UNION {{[t |-> o, l |-> sq[i], r |-> sq[j]] : j \in i..n} : i \in 1..n} : o \in {"and", "or"}}
 
 IsAtom(c) == c.t \notin {"and", "or"}
+
+\* the key columns a string operator is applied to (these must be string columns)
+RECURSIVE StrCols(_)
+StrCols(c) == IF c.t \in {"and", "or"} THEN StrCols(c.l) \cup StrCols(c.r)
+              ELSE IF c.t = "strop" THEN {c.c} ELSE {}
 
 \* Row-level truth (the oracle): comparisons with null are false; an atom on a non-key column, and a
 \* string operator on a non-null cell, MAY be true (the index must allow for it).
@@ -159,13 +170,20 @@ ConsiderOnlyBeTrue == M(FALSE, TRUE)
 
 -----------------------------------------------------------------------------
 (* RPN elements (genRPNElementByOp).                                         *)
-AtomElem(dv, a) ==
+\* createRightBounded / createLeftBounded turn an open bound on an INTEGER column into a closed one
+\* (Range.turnOpenRangeIntoClosed: (.., v) becomes (.., v-1]); for a column whose values are consecutive
+\* integers v-1 is the previous value, otherwise it lies strictly between two values and behaves like
+\* the open bound.
+AtomElem(dv, ty, a) ==
   CASE a.t = "cmp" ->
         (CASE a.op = "eq" -> [e |-> "InRange",    c |-> a.c, rg |-> Point(a.v)]
            [] a.op = "ne" -> [e |-> "NotInRange", c |-> a.c, rg |-> Point(a.v)]
-           [] a.op = "lt" -> [e |-> "InRange",    c |-> a.c, rg |-> RightB(a.v, "lt_as_le" \in dv)]
+           [] a.op = "lt" -> [e |-> "InRange",    c |-> a.c, rg |-> IF "lt_as_le" \in dv THEN RightB(a.v, TRUE)
+                                                                     ELSE IF ty[a.c] = "ia" THEN RightB(a.v - 1, TRUE)
+                                                                     ELSE RightB(a.v, FALSE)]
            [] a.op = "le" -> [e |-> "InRange",    c |-> a.c, rg |-> RightB(a.v, "le_as_lt" \notin dv)]
-           [] a.op = "gt" -> [e |-> "InRange",    c |-> a.c, rg |-> LeftB(a.v, FALSE)]
+           [] a.op = "gt" -> [e |-> "InRange",    c |-> a.c, rg |-> IF ty[a.c] = "ia" THEN LeftB(a.v + 1, TRUE)
+                                                                     ELSE LeftB(a.v, FALSE)]
            [] a.op = "ge" -> [e |-> "InRange",    c |-> a.c, rg |-> LeftB(a.v, TRUE)])
     [] a.t = "in"     -> [e |-> "InSet", c |-> a.c, vs |-> a.vs]
     [] a.t = "strop"  -> IF a.op = "matchphrase" /\ "matchphrase_as_equality" \in dv
@@ -177,9 +195,9 @@ AtomElem(dv, a) ==
 \* know (like, match): the element is missing from the RPN
 Dropped(dv, a) == a.t = "strop" /\ a.op # "matchphrase" /\ "unknown_op_drops_element" \in dv
 
-RECURSIVE ToRPN(_, _)
-ToRPN(dv, c) == IF IsAtom(c) THEN (IF Dropped(dv, c) THEN <<>> ELSE <<AtomElem(dv, c)>>)
-            ELSE ToRPN(dv, c.l) \o ToRPN(dv, c.r) \o <<[e |-> IF c.t = "and" THEN "AND" ELSE "OR", c |-> 0]>>
+RECURSIVE ToRPN(_, _, _)
+ToRPN(dv, ty, c) == IF IsAtom(c) THEN (IF Dropped(dv, c) THEN <<>> ELSE <<AtomElem(dv, ty, c)>>)
+            ELSE ToRPN(dv, ty, c.l) \o ToRPN(dv, ty, c.r) \o <<[e |-> IF c.t = "and" THEN "AND" ELSE "OR", c |-> 0]>>
 
 IsKeyElem(e) == e.e \in {"InRange", "NotInRange", "InSet", "Unknown"}
 MaxKeyIndex(rpn) == LET cs == {rpn[i].c : i \in {j \in 1..Len(rpn) : IsKeyElem(rpn[j])}}
@@ -325,10 +343,10 @@ AsImplemented == {"right_bound_overwrites", "unknown_op_drops_element", "matchph
 Fails(dv, rpn) == rpn # <<>> /\ (~StackOK(rpn, 1, 0) \/ ("in_is_error" \in dv /\ HasIn(rpn)))
 
 \* [fails, may, sel]: the outcome of Scan under the deviations dv, for the settings named in SettingNames
-SelFor(dv, c, rs, gg) ==
+SelFor(dv, ty, c, rs, gg) ==
   LET idx == Index(dv, rs, gg)
       nf  == NFrag(Len(rs), gg)
-      rpn == ToRPN(dv, c)
+      rpn == ToRPN(dv, ty, c)
   IN IF Fails(dv, rpn) THEN [fails |-> TRUE, may |-> <<>>, sel |-> [s \in SettingNames |-> {}]]
      ELSE IF rpn = <<>>                             \* HavePrimaryKey() = false: the index is not used
      THEN [fails |-> FALSE, may |-> [pr \in Pairs(nf) |-> TRUE], sel |-> [s \in SettingNames |-> 0..(nf - 1)]]
@@ -337,39 +355,46 @@ SelFor(dv, c, rs, gg) ==
 
 NoSel == [fails |-> FALSE, may |-> <<>>, sel |-> <<>>]
 
-ScanOut(c, rs, gg) ==
+AllO(kk) == [i \in 1..kk |-> "o"]
+
+ScanOut(c, rs, gg, ty) ==
+  LET impl == IF WithImpl THEN SelFor(Dev \cup AsImplemented, ty, c, rs, gg) ELSE NoSel
+  IN
   [ match  |-> MatchFrags(c, rs, gg),
-    design |-> SelFor(Dev, c, rs, gg),                          \* the design (plus the mutation seeds in Dev)
-    impl   |-> IF WithImpl THEN SelFor(Dev \cup AsImplemented, c, rs, gg) ELSE NoSel ]   \* the as-implemented model
+    design |-> SelFor(Dev, ty, c, rs, gg),                       \* the design (plus the mutation seeds in Dev)
+    impl   |-> impl,                                             \* the as-implemented model
+    \* the as-implemented model when no column is an integer column (the harness' predictor for F-C20-2)
+    implo  |-> IF WithImpl /\ ty # AllO(Len(ty)) THEN SelFor(Dev \cup AsImplemented, AllO(Len(ty)), c, rs, gg) ELSE impl ]
 
 -----------------------------------------------------------------------------
 Log(a, args, exp) == hist' = Append(hist, [a |-> a, args |-> args, exp |-> exp])
 
 NoCond == [t |-> "none"]
-NoOut  == [match |-> {}, design |-> NoSel, impl |-> NoSel]
+NoOut  == [match |-> {}, design |-> NoSel, impl |-> NoSel, implo |-> NoSel]
 
-Init == /\ phase = "init" /\ k = 0 /\ rows = <<>> /\ g = 0 /\ cond = NoCond /\ tb = NoTB /\ out = NoOut
+Init == /\ phase = "init" /\ k = 0 /\ rows = <<>> /\ g = 0 /\ ct = <<>> /\ cond = NoCond /\ tb = NoTB /\ out = NoOut
         /\ hist = <<>>
 
 \* the (record, fragment size) offered to Build, the condition trees and the time bounds offered to
 \* NewKeyCondition; simulation configurations override these with random samples
 RecChoices(kk)   == AllRecs(kk)
 CondChoices(kk)  == Trees(ExhAtoms(kk), CondDepth)
-TBChoices(kk)    == {NoTB}
+TBChoices(kk, c) == {NoTB}
+TypeChoices(kk)  == {AllO(kk)}
 
-Build(kk, rs, gg) ==
+Build(kk, rs, gg, ty) ==
   /\ phase = "init"
-  /\ phase' = "built" /\ k' = kk /\ rows' = rs /\ g' = gg
+  /\ phase' = "built" /\ k' = kk /\ rows' = rs /\ g' = gg /\ ct' = ty
   /\ UNCHANGED <<cond, tb, out>>
-  /\ Log("Build", [k |-> kk, g |-> gg, rows |-> rs],
+  /\ Log("Build", [k |-> kk, g |-> gg, rows |-> rs, types |-> ty],
                   [nf |-> NFrag(Len(rs), gg), idx |-> [j \in 1..(NFrag(Len(rs), gg) + 1) |-> Index(Dev, rs, gg)[j - 1]]])
 
 NewKeyCondition(c, t) ==
   /\ phase = "built"
   /\ phase' = "cond" /\ cond' = c /\ tb' = t
-  /\ UNCHANGED <<k, rows, g, out>>
-  /\ LET rpn  == ToRPN(Dev, FullCond(c, t))
-         irpn == ToRPN(Dev \cup AsImplemented, FullCond(c, t))
+  /\ UNCHANGED <<k, rows, g, ct, out>>
+  /\ LET rpn  == ToRPN(Dev, ct, FullCond(c, t))
+         irpn == ToRPN(Dev \cup AsImplemented, ct, FullCond(c, t))
      IN Log("NewKeyCondition", [cond |-> c, tb |-> t],
             [rpnlen |-> Len(rpn), maxkey |-> MaxKeyIndex(rpn),
              implrpnlen |-> Len(irpn), implmaxkey |-> MaxKeyIndex(irpn), implerr |-> Fails(Dev \cup AsImplemented, irpn)])
@@ -377,16 +402,17 @@ NewKeyCondition(c, t) ==
 Scan ==
   /\ phase = "cond"
   /\ phase' = "done"
-  /\ out' = ScanOut(FullCond(cond, tb), rows, g)
-  /\ UNCHANGED <<k, rows, g, cond, tb>>
+  /\ out' = ScanOut(FullCond(cond, tb), rows, g, ct)
+  /\ UNCHANGED <<k, rows, g, ct, cond, tb>>
   /\ Log("Scan", <<>>, [match |-> SetSeq(out'.match), implerr |-> out'.impl.fails,
                         sel  |-> [s \in DOMAIN out'.design.sel |-> SetSeq(out'.design.sel[s])],
-                        impl |-> [s \in DOMAIN out'.impl.sel |-> SetSeq(out'.impl.sel[s])]])
+                        impl |-> [s \in DOMAIN out'.impl.sel |-> SetSeq(out'.impl.sel[s])],
+                        implo |-> [s \in DOMAIN out'.implo.sel |-> SetSeq(out'.implo.sel[s])]])
 
 Next ==
   /\ Len(hist) < Depth
-  /\ \/ phase = "init"  /\ \E kk \in Ks : \E rs \in RecChoices(kk) : \E gg \in FragSizes : Build(kk, rs, gg)
-     \/ phase = "built" /\ \E c \in CondChoices(k) : \E t \in TBChoices(k) : NewKeyCondition(c, t)
+  /\ \/ phase = "init"  /\ \E kk \in Ks : \E rs \in RecChoices(kk) : \E gg \in FragSizes : \E ty \in TypeChoices(kk) : Build(kk, rs, gg, ty)
+     \/ phase = "built" /\ \E c \in CondChoices(k) : \E t \in TBChoices(k, c) : NewKeyCondition(c, t)
      \/ phase = "cond"  /\ Scan
 
 Spec == Init /\ [][Next]_vars
@@ -395,6 +421,7 @@ Spec == Init /\ [][Next]_vars
 TypeOK == /\ phase \in {"init", "built", "cond", "done"}
           /\ phase # "init" => /\ k \in Ks /\ Len(rows) \in 1..MaxRows /\ g \in FragSizes
                                /\ \A i \in 1..Len(rows) : rows[i] \in Tup(k)
+                               /\ ct \in [1..k -> {"o", "ia"}]
 
 Sorted == \A i \in 1..(Len(rows) - 1) : RowLE(rows[i], rows[i + 1])
 
